@@ -76,6 +76,17 @@ Definition set_value (k : kind) (v : string) : option fval :=
   | KStr => Some (VS v)
   end.
 
+(* a Set that fails: boolValue.Set / durationValue.Set store the zero value all the same (`*b = boolValue(v)` with the
+   v of the failed conversion), but the flag is not entered into f.actual: it shows (fs.Visit) only if it had been set
+   before.  Nothing in mage looks at the values after an error; kept so that the transcription is exact. *)
+Definition assigned (n : string) (a : assigns) : bool := existsb (fun nv => String.eqb n (fst nv)) a.
+Definition zero_of (k : kind) : fval := match k with KBool => VB false | KDur => VD 0%Z | KStr => VS "" end.
+Definition fail_set (a : assigns) (n : string) (k : kind) : assigns :=
+  match k with
+  | KStr => a
+  | _ => if assigned n a then a ++ [(n, zero_of k)] else a
+  end.
+
 (* Parse: for { seen, err := f.parseOne(); if seen { continue }; if err == nil { break }; return err }.
    [pend] = a non-boolean flag that was given without "=value" and takes the next word. *)
 Fixpoint parse_from (sp : spec) (args : list string) (pend : option (string * kind)) (acc : assigns) : pres :=
@@ -89,7 +100,7 @@ Fixpoint parse_from (sp : spec) (args : list string) (pend : option (string * ki
       | Some (n, k) =>
           match set_value k s with
           | Some fv => parse_from sp tl None (acc ++ [(n, fv)])
-          | None => PBad acc                                       (* invalid value %q for flag -%s *)
+          | None => PBad (fail_set acc n k)                        (* invalid value %q for flag -%s *)
           end
       | None =>
           match classify s with
@@ -104,7 +115,7 @@ Fixpoint parse_from (sp : spec) (args : list string) (pend : option (string * ki
                   match hv with
                   | Some v => match parse_bool v with
                               | Some b => parse_from sp tl None (acc ++ [(n, VB b)])
-                              | None => PBad acc                   (* invalid boolean value *)
+                              | None => PBad (fail_set acc n KBool) (* invalid boolean value *)
                               end
                   | None => parse_from sp tl None (acc ++ [(n, VB true)])
                   end
@@ -112,7 +123,7 @@ Fixpoint parse_from (sp : spec) (args : list string) (pend : option (string * ki
                   match hv with
                   | Some v => match set_value k v with
                               | Some fv => parse_from sp tl None (acc ++ [(n, fv)])
-                              | None => PBad acc
+                              | None => PBad (fail_set acc n k)
                               end
                   | None => parse_from sp tl (Some (n, k)) acc
                   end
